@@ -43,13 +43,55 @@ def _writers():
     return sorted(set(out))
 
 
+def _callers():
+    """method name -> set of 'Class.func' that mention `.name` (attribute access / call) anywhere in qstrader/"""
+    import qstrader
+    root = os.path.dirname(qstrader.__file__)
+    out = {}
+    for dp, dn, fn in os.walk(root):
+        for f in fn:
+            if not f.endswith('.py'):
+                continue
+            tree = ast.parse(open(os.path.join(dp, f)).read())
+            for cls in [n for n in ast.walk(tree) if isinstance(n, ast.ClassDef)]:
+                for fd in [n for n in cls.body if isinstance(n, ast.FunctionDef)]:
+                    for x in ast.walk(fd):
+                        if isinstance(x, ast.Attribute):
+                            out.setdefault(x.attr, set()).add('%s.%s' % (cls.name, fd.name))
+            for fd in [n for n in tree.body if isinstance(n, ast.FunctionDef)]:
+                for x in ast.walk(fd):
+                    if isinstance(x, ast.Attribute):
+                        out.setdefault(x.attr, set()).add(fd.name)
+    return out
+
+
+def _covered_with_helpers(covered, writers):
+    """a PRIVATE helper whose every user is itself covered runs inline inside those functions' harnesses: covered too"""
+    callers = _callers()
+    cov = set(covered)
+    changed = True
+    while changed:
+        changed = False
+        for qual, field, path in writers:
+            name = qual.split('.')[-1]
+            if qual in cov or not name.startswith('_') or name.startswith('__'):
+                continue
+            users = callers.get(name, set()) - {qual}
+            if users and users <= cov:
+                cov.add(qual)
+                changed = True
+    return cov
+
+
 @harness('closed-world', props=['C01', 'C02', 'C03', 'C04', 'C15'], layer='L2', functions=[])
 def closed_world(c):
-    """every writer of a protected field (cash balances, histories, queues, positions and their accounting fields) is under contract"""
+    """every writer of a protected field (cash balances, histories, queues, positions and their accounting fields) is under
+       contract - directly, or as a private helper used only by functions under contract (it then runs inline in their harnesses)"""
     covered = set()
     for h in HARNESSES.values():
         covered.update(h.functions)
     ws = _writers()
+    covered = _covered_with_helpers(covered, ws)
     c.ob('scan-found-the-known-writers', len(ws) >= 15, kind='A')
     for qual, field, path in ws:
         c.ob('%s-writes-%s-and-is-under-contract' % (qual, field), qual in covered, kind='A', props=sorted({PROTECTED[field], 'C15', 'C01'}))
